@@ -18,7 +18,8 @@ input): the usable total ×100 (before or after scaling) is non-zero but within 
 `is_close_to_zero`, where the code answers 0 %.
 Histories (messages / time-outs / working-set updates interleaved with calculations) check the cache glue: model =
 code on every calculation, and none-iff + formula against a Python tracker of "latest message since it last stopped
-working".
+working".  A small stream runs the REAL `SendOnUpdate` objects with their asyncio tasks (async_solipsism loop, mocked
+API channels as in the repo's tests) and requires the streamed samples to equal the model's.
 Correspondence: every script through `Drivers/PoolSoc.lean`, outputs compared exactly.
 """
 from __future__ import annotations
@@ -283,6 +284,24 @@ def check_script(ctx: Ctx, script: dict, scripts: list, outs: list) -> None:
     ctx.case(case, tags=["history"] + (["history-with-eviction"] if evicting else []), nontrivial=evicting or len(script["ops"]) > 6)
 
 
+def check_fullstack(ctx: Ctx, snap: dict, new_working: list[int], scripts: list, outs: list) -> None:
+    """The real `SendOnUpdate` objects with their asyncio tasks on the virtual-time loop, fed through the mocked API
+    channels; their streamed results must be what the synchronous seam (and hence the model) computes."""
+    script = g.fullstack_script(snap, new_working)
+    streamed = g.run_c18_fullstack(snap, new_working)
+    case = {"script": script, "fullstack": True}
+    for k, (view, res) in enumerate(zip(track(script), streamed)):
+        try:
+            soc, cap = value_of(res["soc"]), value_of(res["cap"])
+        except Crashed as e:
+            ctx.violation("stream-broken", case, {"reading": k, "observed": str(e)})
+            continue
+        check_values(ctx, case, qualifying(view), qualifying(view, ("capacity", "lo", "hi")), soc, cap, label=f"@stream{k}")
+    scripts.append(script)
+    outs.append({"out": streamed})
+    ctx.case(case, tags=["full-stack SendOnUpdate (asyncio tasks, mock API channels)"], nontrivial=True)
+
+
 def load_corpus() -> list[dict]:
     d = pathlib.Path(__file__).resolve().parent.parent / "corpus" / "C18"
     return [json.loads(p.read_text()) for p in sorted(d.glob("*.json"))] if d.exists() else []
@@ -326,6 +345,10 @@ def run(ctx: Ctx) -> None:
             check_script(ctx, g.gen_c18_script(rng), scripts, outs)
         else:
             check_snapshot(ctx, g.gen_c18_static(rng, in_domain=r < 0.92), rng, scripts, outs)
+    for i in range(ctx.budget(40, 600)):
+        rng = ctx.subrng("fullstack", i)
+        snap = g.gen_c18_static(rng)
+        check_fullstack(ctx, snap, [d["id"] for d in snap["bats"] if rng.random() < 0.7], scripts, outs)
     if ctx.tier == "thorough":
         # bounded-exhaustive small scope: two batteries, every combination of capacity / limits / SoC position /
         # presence from a small lattice (both working), with the metamorphic re-runs of every snapshot
